@@ -351,3 +351,13 @@ func foldSkipsExactlyNonCritical(fold ssa.Instruction) (ok bool, leafTypes map[s
 	}
 	return ok, leafTypes, why
 }
+
+// succIndex: index of successor s among b's successors (first match).
+func succIndex(b, s *ssa.BasicBlock) int {
+	for i, x := range b.Succs {
+		if x == s {
+			return i
+		}
+	}
+	return 0
+}
